@@ -377,6 +377,32 @@ def spec_violations(cfg, inputs, iters, exit_lines):
             med = int(p0['med'])
             cands = [n for n, mm in (('up', cfg['up_metric']), ('down', cfg['down_metric']), ('disabled', cfg['disabled_metric'])) if mm == med]
             kind = cands[0] if len(cands) == 1 else 'ambiguous'
+        if kind in ('up', 'down', 'disabled'):
+            # every line carries the configured values for that state (metric of the first IP + i * increase)
+            base = {'up': cfg['up_metric'], 'down': cfg['down_metric'], 'disabled': cfg['disabled_metric']}[kind]
+            want_as = cfg.get(f'{kind}_as_path') or cfg.get('as_path')
+            want_comm = cfg.get('community')
+            if kind in ('down', 'disabled') and cfg.get('disabled_community'):
+                want_comm = cfg['disabled_community']
+            for i, p in enumerate(parsed):
+                if p['action'] != 'announce':
+                    continue
+                if int(p['med']) != base + i * cfg['increase']:
+                    probs.append(('line-metric', f'iteration {k}: line {i} carries med {p["med"]}, configured {base} + {i} x {cfg["increase"]}'))
+                    break
+                if (p['aspath'] or None) != (want_as or None):
+                    probs.append(('line-as-path', f'iteration {k}: line {i} carries as-path {p["aspath"]!r}, configured {want_as!r} for {kind}'))
+                    break
+                if (p['comm'] or None) != (want_comm or None):
+                    probs.append(('line-community', f'iteration {k}: line {i} carries community {p["comm"]!r}, configured {want_comm!r} for {kind}'))
+                    break
+                if p['nh'] != (cfg.get('next_hop') or 'self'):
+                    probs.append(('line-next-hop', f'iteration {k}: line {i} carries next-hop {p["nh"]}, configured {cfg.get("next_hop") or "self"}'))
+                    break
+                lp = cfg.get('local_preference')
+                if (p['lp'] is not None) != (lp is not None and lp >= 0) or (p['lp'] is not None and int(p['lp']) != lp):
+                    probs.append(('line-local-preference', f'iteration {k}: line {i} carries local-preference {p["lp"]}, configured {lp}'))
+                    break
         if kind == 'up' and good < max(cfg['rise'], 1):
             probs.append(('up-early', f'iteration {k}: up announcement after only {good} consecutive successes (rise {cfg["rise"]})'))
         if kind == 'down' and bad < max(cfg['fall'], 1):
